@@ -173,7 +173,16 @@ func (m *model) Init(dir string) error {
 func (m *model) Actions() []string {
 	a := []string{"user-new", "bug-new", "comment", "title", "status", "label", "select", "deselect", "push", "pull", "rm", "attach", "peer-edit", "bridge", "gql", "ls", "wipe", "ls-linked"}
 	if m.p.Alphabet == "thorough" {
-		a = append(a, "comment-edit", "show", "user-ls", "label-ls")
+		return append(a, "attach2", "comment-edit", "show", "user-ls", "label-ls")
+	}
+	// quick: same alphabet size in both start states; where a bug already exists the attachment
+	// action is the one that puts two file-carrying operations into one commit
+	if m.p.Init == "seeded" {
+		for i := range a {
+			if a[i] == "attach" {
+				a[i] = "attach2"
+			}
+		}
 	}
 	return a
 }
